@@ -341,6 +341,7 @@ pub fn c01_families(tier: &str) -> Vec<SeqSpec> {
     );
     v.push(trivial_move_family(t, READS));
     v.push(rich_family("F-rich/T300", k3s(), a1(), if t { 6 } else { 4 }, READS));
+    v.push(levels_family("F-levels/L", "L", k4(), a1(), if t { 5 } else { 3 }, READS));
     v
 }
 
@@ -433,6 +434,7 @@ pub fn c07(tier: &str) -> ! {
     ];
     fams.push(spec("C07-seek/T300", &["T300"], k4(), a_seek, if t { 7 } else { 5 }, ck).flush());
     fams.push(rich_family("C07-rich/T300", k3(), a_c07_small(), if t { 5 } else { 3 }, ck));
+    fams.push(levels_family("C07-levels/L", "L", k4(), a_c07_small(), if t { 4 } else { 3 }, ck));
     if t {
         fams.push(spec("C07-full/T300", &["T300"], k3(), a_c07_full(), 4, ck).flush());
         fams.push(spec("C07-ranged/T1", &["T1"], k3(), a_c07_small(), 5, ck).flush());
@@ -479,6 +481,7 @@ pub fn c03_seq_families(tier: &str) -> Vec<SeqSpec> {
     fams.push(spec("C03-small/M2", &["M2"], k2(), a_c03_small(), if t { 7 } else { 5 }, ck).lazy());
     fams.push(spec("C03-small/R", &["R"], k2(), a_c03_small(), if t { 7 } else { 5 }, ck).lazy());
     fams.push(rich_family("C03-rich/T300", k3(), a_c03(), if t { 4 } else { 3 }, ck));
+    fams.push(levels_family("C03-levels/L", "L", k4(), a_c03(), if t { 4 } else { 2 }, ck));
     // T1: every table holds one entry, so the versions of one key pinned by snapshots straddle
     // adjacent files of a level
     fams.push(spec("C03-small/T1", &["T1"], k2(), a_c03_small(), if t { 8 } else { 5 }, ck).flush());
@@ -524,6 +527,7 @@ pub fn c11_seq_families(tier: &str) -> Vec<SeqSpec> {
     fams.push(spec("C11-seek/T300", &["T300"], k4(), a_seek, if t { 7 } else { 5 }, ck).flush());
     fams.push(trivial_move_family(t, ck));
     fams.push(rich_family("C11-rich/T300", k3(), a_c11(), if t { 4 } else { 3 }, ck));
+    fams.push(levels_family("C11-levels/L", "L", k4(), a_c11(), if t { 4 } else { 2 }, ck));
     fams
 }
 
@@ -620,13 +624,15 @@ pub fn c11(tier: &str) -> ! {
     if t {
         run_sched(&mut rep, "reader-vs-deletion/p2d4", &c03_programs(), (2, 4), 16, false, 2, Duration::from_secs(1500), own);
         run_sched(&mut rep, "crash-at-every-removal/p2d4", &c11_removal_programs(), (2, 4), 16, false, 2, Duration::from_secs(1500), own);
+        run_sched(&mut rep, "failing-reader-vs-version-install/p2d4", &c11_fault_programs(), (2, 4), 16, false, 2, Duration::from_secs(900), own);
     } else {
         run_sched(&mut rep, "reader-vs-deletion/p1d3", &c03_programs(), (1, 3), 4, false, 1, Duration::from_secs(15), own);
         run_sched(&mut rep, "crash-at-every-removal/p1d3", &c11_removal_programs(), (1, 3), 4, false, 1, Duration::from_secs(20), own);
+        run_sched(&mut rep, "failing-reader-vs-version-install/p1d3", &c11_fault_programs(), (1, 3), 4, false, 1, Duration::from_secs(15), own);
     }
     finish_common(&mut rep);
     sched_assumptions(&mut rep);
-    rep.cov("oracle", json!("sequence part: at every node without live snapshot/iterator, after one reclamation opportunity (flush of the possibly empty memtable, background idle) the three directories hold exactly CURRENT, LOCK, the current manifest, WALs >= the version's WAL number and the tables of the current layout; with a live snapshot/iterator every table of the current layout exists; schedule part: no read of a reader concurrent with compaction + deletion ever touches a removed file (strict unlink)"));
+    rep.cov("oracle", json!("sequence part: at every node without live snapshot/iterator, after one reclamation opportunity (flush of the possibly empty memtable, background idle) the three directories hold exactly CURRENT, LOCK, the current manifest, WALs >= the version's WAL number and the tables of the current layout; with a live snapshot/iterator every table of the current layout exists; schedule part: no read of a reader concurrent with compaction + deletion ever touches a removed file (strict unlink); schedule x fault part: a reader whose own table reads fail runs against flushes / compactions installing new versions, and after the fault is disarmed, everything compacted and the background idle the directories again hold exactly the needed files"));
     rep.finish()
 }
 
@@ -798,6 +804,20 @@ pub fn rich_setup() -> Vec<Op> {
         Op::Put(0, 0), Op::Flush, Op::Batch(vec![(1, true), (2, true)]), Op::Flush,
         Op::Del(1), Op::Flush, Op::Put(0, 0), Op::Flush,
     ]
+}
+
+/// Levels 1..=5 limited to 250 bytes (hook): every second flushed file overflows its level, so data
+/// cascades through size-triggered compactions and trivial moves down to the last level.
+pub fn levels_setup() -> Vec<Op> {
+    vec![
+        Op::Put(0, 0), Op::Flush, Op::Put(1, 0), Op::Flush, Op::Put(2, 0), Op::Flush, Op::Put(3, 0), Op::Flush,
+        Op::Put(0, 0), Op::Flush, Op::Put(1, 0), Op::Flush, Op::Del(2), Op::Flush, Op::Put(3, 0), Op::Flush,
+        Op::Put(0, 0), Op::Flush, Op::Del(1), Op::Flush, Op::Put(2, 0), Op::Flush, Op::Put(3, 0), Op::Flush,
+    ]
+}
+
+pub fn levels_family(name: &str, cfg: &str, keys: Vec<Vec<u8>>, alphabet: Vec<Op>, depth: usize, ck: Checks) -> SeqSpec {
+    spec(name, &[cfg], keys, alphabet, depth, ck).flush().with_setup(levels_setup())
 }
 
 pub fn rich_family(name: &str, keys: Vec<Vec<u8>>, alphabet: Vec<Op>, depth: usize, ck: Checks) -> SeqSpec {
